@@ -90,7 +90,7 @@ func nearestLang(n *xmodel.Node) (string, bool) {
 
 func TestC12(t *testing.T) {
 	runWitnesses(t, "C12")
-	runProp(t, "names", 15000, 1000000, func(t *rapid.T) {
+	runProp(t, "names", 120000, 1000000, func(t *rapid.T) {
 		c, p := genDocCase(t, caseOpts{cfg: xmodel.GenCfg{MaxDepth: 3, MaxKids: 3, MaxTop: 2, Forest: true}, anyCtx: true, nodeVars: true},
 			func(g *xast.G, p *prepared) *xast.Expr {
 				fn := []string{"name", "local-name", "namespace-uri"}[rapid.IntRange(0, 2).Draw(g.T, "fn")]
@@ -135,7 +135,7 @@ func TestC12(t *testing.T) {
 			t.Fatalf("C12/names: %v", err)
 		}
 	})
-	runProp(t, "lang", 15000, 1000000, func(t *rapid.T) {
+	runProp(t, "lang", 120000, 1000000, func(t *rapid.T) {
 		ev := langDoc(t)
 		p, err := prepareDoc(ev)
 		if err != nil {
